@@ -828,3 +828,54 @@ func init() {
 		}
 	}
 }
+
+// "Qualifying a function call with ASYNC changes when it runs, not what the query returns": statements the model of
+// Async.tla does not vary (select items that share a name, a star next to a call of a column's name, calls nested in
+// expressions and arguments, calls inside derived tables read by name) are evaluated with their calls unqualified and with
+// the same calls qualified ASYNC (and the ones whose value is not used, SPINASYNC): the rows have to be the same.
+func init() {
+	genql.RegisterFunction("neg14", func(q *genql.Query, cur genql.Map, fo *genql.FunctionOptions, args []any) (any, error) {
+		time.Sleep(30 * time.Microsecond)
+		return -float64(argInt(args[0])), nil
+	})
+	Drivers["C14:qualify"] = func(emit func(Verdict)) {
+		for _, tpl := range []string{
+			"SELECT {Q}sf(a) AS v, neg14(a) AS v FROM t",
+			"SELECT neg14(a) AS v, {Q}sf(a) AS v FROM t",
+			"SELECT {Q}sf(a) AS v, {Q}neg14(a) AS v FROM t",
+			"SELECT {Q}sf(a) AS a, * FROM t",
+			"SELECT *, {Q}sf(a) AS a FROM t",
+			"SELECT {Q}sf(a) AS v, a AS v FROM t",
+			"SELECT a, ARRAY({Q}sf(a), a) AS arr, CONCAT({Q}neg14(a), '!') AS c FROM t",
+			"SELECT a, IF(a > 1, {Q}sf(a), {Q}neg14(a)) AS w FROM t",
+			"SELECT x.v AS v, x.a FROM (SELECT a, {Q}sf(a) AS v FROM t) x",
+			"SELECT * FROM (SELECT {Q}sf(a) AS v, a AS v FROM t) x",
+			"SELECT a, {Q}sf(a) AS v FROM t WHERE a > 1",
+			"SELECT a, {Q}sf(a) AS v FROM t LIMIT 1 OFFSET 1",
+		} {
+			for _, n := range []int{1, 3} {
+				plain := strings.ReplaceAll(tpl, "{Q}", "")
+				async := strings.ReplaceAll(tpl, "{Q}", "ASYNC.")
+				sig := []string{"qualify", "qual:async"}
+				v := Verdict{OK: true, SQL: async, Sig: sig, Nontrivial: true}
+				ref := Run(asyncDoc(n), plain, false)
+				v.Execs++
+				if ref.Err != nil || ref.Panic != nil {
+					v.Nontrivial = false
+					v.Drift = "the unqualified statement is not accepted: " + ref.Describe()
+				} else {
+					for rep := 0; rep < 4; rep++ {
+						out := Run(asyncDoc(n), async, false)
+						v.Execs++
+						if out.Err != nil || out.Panic != nil || Canon(any(out.Rows)) != Canon(any(ref.Rows)) {
+							v = fail("result", async, sig, "%d rows; with the calls unqualified: %s, qualified ASYNC: %s", n, Canon(any(ref.Rows)), out.Describe())
+							break
+						}
+					}
+				}
+				v.Key, v.Case = fmt.Sprintf("%s/%d", tpl, n), Node{"sql": async, "rows": n}
+				emit(v)
+			}
+		}
+	}
+}
